@@ -106,12 +106,13 @@ def _roles(prog):
         if s.get("k") == "ret" and isinstance(ir.strip(s.get("e")), dict) and ir.strip(s["e"]).get("k") == "init":
             flds = {e["f"]: ir.strip(e["v"]) for e in ir.strip(s["e"]).get("elts", []) if "f" in e}
             bg, en = flds.get("beg"), flds.get("end")
-            if isinstance(bg, dict) and bg.get("k") == "var":
-                r["rm_out"] = bg["n"]
-            if isinstance(en, dict) and en.get("k") == "bin" and en.get("op") == "+":
-                for x in (ir.strip(en["l"]), ir.strip(en["r"])):
-                    if isinstance(x, dict) and x.get("k") == "var" and x["n"] != r.get("rm_out"):
-                        r["rm_nbytes"] = x["n"]
+            # the return that builds the slice as (out, out + nbytes); other returns (an early
+            # empty result) do not define the roles
+            if isinstance(bg, dict) and bg.get("k") == "var" and isinstance(en, dict) and en.get("k") == "bin" and en.get("op") == "+":
+                xs = [x for x in (ir.strip(en["l"]), ir.strip(en["r"])) if isinstance(x, dict) and x.get("k") == "var"]
+                if len(xs) == 2 and any(x["n"] == bg["n"] for x in xs):
+                    r["rm_out"] = bg["n"]
+                    r["rm_nbytes"] = [x["n"] for x in xs if x["n"] != bg["n"]][0] if any(x["n"] != bg["n"] for x in xs) else r.get("rm_nbytes")
     u = prog.func("channel_read_unmap")
     for b, i, s in u.all_stmts():
         for lv, op, rhs, w in ir.writes_of(s):
@@ -706,6 +707,8 @@ def rule_reader_ops(prog, res, rule="R-LIN"):
     kp_map, kc_map, kp_reg, kc_reg = set(), set(), set(), set()
     for rv, st in rets:
         registered = st.cells.get("reader->id") is not None and st.cells["reader->id"] != _init("reader->id")
+        if (h.name, hp["pos"]) not in st.ptr and (h.name, hp["cycle"]) not in st.ptr:
+            continue   # a return taken before the slot pointers were formed addresses no slot
         kp = _pretty(st.ptr.get((h.name, hp["pos"]), "?"))
         kc = _pretty(st.ptr.get((h.name, hp["cycle"]), "?"))
         (kp_reg if registered else kp_map).add(kp)
